@@ -80,7 +80,7 @@ class NodeList:
         if tags:
             tagged = NodeList()
             for n in range(len(nodes)):
-                if nodes[n].tags and np.isin(tags, nodes[n].tags):
+                if nodes[n].tags and np.any(np.isin(tags, nodes[n].tags)):    # one of several tag selectors is enough
                     tagged.append(nodes[n])
             nodes = tagged
         if order:
